@@ -177,16 +177,16 @@ export function* generate({ tier, seed }) {
   // 2. need x context x sibling before/after (sampled in quick, full in thorough)
   const combos = [];
   for (const need of needs) for (const ctx of (NEEDS[need].reassign ? ['fnBody'] : ctxs)) for (const b of sibs) for (const a of sibs) if (b !== 'none' || a !== 'none') combos.push([need, ctx, b, a]);
-  const pick = tier === 'quick' ? rng.shuffle(combos).slice(0, 2500) : combos;
+  const pick = tier === 'quick' ? rng.shuffle(combos).slice(0, 12000) : combos;
   for (const [need, ctx, b, a] of pick) { const g = emit(need, ctx, b, a, [], 'module', [rng.pick(O)]); if (g) yield g; }
   // 2b. every need in the contexts that take siblings inside the same statement list, many sibling draws
   const innerCtxs = ['fnBodyInner', 'arrowBlockInner', 'methodInner', 'nestedBlockInner'];
-  const nInner = tier === 'quick' ? 8 : 60;
+  const nInner = tier === 'quick' ? 30 : 400;
   for (const need of needs) for (const ctx of (NEEDS[need].reassign ? ['fnBody'] : innerCtxs)) for (let k = 0; k < nInner; k++) {
     const g = emit(need, ctx, 'none', 'none', [], 'module', [rng.pick(O)]); if (g) yield g;
   }
   // 3. colliding user names
-  const nColl = tier === 'quick' ? 1500 : 20000;
+  const nColl = tier === 'quick' ? 8000 : 120000;
   for (let i = 0; i < nColl; i++) {
     const need = rng.pick(needs), ctx = rng.pick(ctxs);
     const k = 1 + rng.int(4);
@@ -268,7 +268,7 @@ export async function check(group, records) {
 
 export function meta({ tier }) {
   return {
-    rule: `G-CTX: lowering that needs a helper/temporary (${Object.keys(NEEDS).length}: slot temporaries 1-3, _isSlot helper, Fragment import, transformOn helper, v-model listener parameter, directives, mergeProps, element-valued attribute, conditional/v-slots nesting, reassignment capture) x syntactic context (${Object.keys(CONTEXTS).length}: module level, function/method/getter/setter bodies, nested blocks, if/for/while/switch with and without blocks, arrow expression bodies, class fields, static blocks, default parameters, export default, object methods, try/catch/finally, labelled, generator, ...) x sibling code before/after (${Object.keys(SIBLINGS).length}^2) x user declarations colliding with generated names (15 names, module or inner scope, used inside the JSX). ${tier === 'quick' ? 'need x context full; 2500 sibling combinations and 1500 collision cases sampled' : 'need x context x siblings full; 20000 collision cases'}. Oracles: static scope analysis of the raw output on identifier identity (unbound / out-of-scope / unused / duplicated generated names), free variables of the re-parsed output vs input, and execution: module load, every thunk twice, every slot twice.`,
+    rule: `G-CTX: lowering that needs a helper/temporary (${Object.keys(NEEDS).length}: slot temporaries 1-3, _isSlot helper, Fragment import, transformOn helper, v-model listener parameter, directives, mergeProps, element-valued attribute, conditional/v-slots nesting, reassignment capture) x syntactic context (${Object.keys(CONTEXTS).length}: module level, function/method/getter/setter bodies, nested blocks, if/for/while/switch with and without blocks, arrow expression bodies, class fields, static blocks, default parameters, export default, object methods, try/catch/finally, labelled, generator, ...) x sibling code before/after (${Object.keys(SIBLINGS).length}^2) x user declarations colliding with generated names (15 names, module or inner scope, used inside the JSX). ${tier === 'quick' ? 'need x context full; 12000 sibling combinations and 8000 collision cases sampled' : 'need x context x siblings full; 120000 collision cases'}. Oracles: static scope analysis of the raw output on identifier identity (unbound / out-of-scope / unused / duplicated generated names), free variables of the re-parsed output vs input, and execution: module load, every thunk twice, every slot twice.`,
     exhaustive: [tier === 'quick' ? 'need x context' : 'need x context x sibling-before x sibling-after'],
     assumptions: ['identifier identity = name + syntax context; an identifier whose identity does not occur in the input is "generated"'],
   };
